@@ -189,11 +189,22 @@ def rule_c14_r3(model: Model) -> RuleResult:
         ok = True
         why = ''
         if isinstance(sf, ast.Name):
+            # a record filled element by element must be filled with field names (not with the keys of the input)
+            from .pairs import Accumulators
+            sacc = Accumulators(model, s, scfg)
+            if sf.id in sacc.names:
+                for (fn_, _st, key_, _v) in sacc.fills.get(sf.id, []):
+                    kf = snz.expr(key_, fn_) if key_ is not None else '#'
+                    if not kf.endswith('.name'):
+                        ok = False
+                        why = f"filled with {kf}, which is the key found in the data, not the field's name"
             defs = rd.at(n, sf.id)
             if not defs:
                 ok = False
                 why = 'undefined'
             for d in defs:
+                if not ok:
+                    break
                 if d.kind != 'assign' or not re.match(r'^set\(', unparse(d.value)):
                     ok = False
                     why = f"defined as {unparse(d.value)[:40] if d.value is not None else d.kind}"
